@@ -61,6 +61,7 @@ INSTANCES = [
     _seq('seq_cap2_sym_base', 2, 0, 4, 5, base=1, tiers=('thorough',)),
     # the classic last-element race: owner push, push, pop, pop  vs.  stealer steal, steal
     _conc('conc_cap2_s1_race', 2, 1, PPpp, 0, 3, ('quick', 'thorough'), tsteps=4),
+    _conc('conc_cap2_s1_race_into', 2, 1, PPpp, 1, 3, ('quick', 'thorough'), tsteps=4),
     _conc('conc_cap2_s1_sym', 2, 1, 'sym4', 0, 4, ('thorough',)),
     _conc('conc_cap2_s1_into_sym', 2, 1, 'sym4', 1, 3, ('thorough',)),
     _conc('conc_cap2_s2_race', 2, 2, PPpp, 0, 4, ('thorough',)),
